@@ -55,6 +55,7 @@ type image struct {
 	Shm     prf.ShmState         `json:"shm"`
 	Dirs    map[string][]imgFile `json:"dirs"` // run-id directory -> files
 	Resumed bool                 `json:"resumed"`
+	Derived string               `json:"derived,omitempty"` // how this image was derived from a frozen one ("" = frozen as is)
 }
 
 type seg struct {
@@ -311,9 +312,24 @@ func listFiles(files []imgFile, di dirInfo) []listing {
 	return out
 }
 
+func diskListing(di dirInfo) []string {
+	out := []string{}
+	for _, s := range di.segs {
+		out = append(out, fmt.Sprintf("%d.aof(%d)", s.Left, s.Raw))
+	}
+	for _, r := range di.rdbs {
+		n := fmt.Sprintf("%d_%d.rdb", r.Off, r.Size)
+		if r.Tmp {
+			n += ".tmp"
+		}
+		out = append(out, fmt.Sprintf("%s(%d)", n, r.Raw))
+	}
+	return out
+}
+
 func (c *checker) witness(img *image, runId string, di dirInfo, extra map[string]any) map[string]any {
 	w := map[string]any{
-		"image_case": img.Case, "image_idx": img.Idx, "aim": img.Aim, "run_id_dir": runId,
+		"image_case": img.Case, "image_idx": img.Idx, "aim": img.Aim, "run_id_dir": runId, "derived": img.Derived,
 		"files": listFiles(img.Dirs[runId], di), "child_progress": img.Shm, "params": img.Params,
 		"how_to_replay": "./run.sh C08 replay <this file> re-opens exactly the embedded image",
 	}
@@ -340,14 +356,32 @@ type report struct {
 }
 
 // openImage opens a fresh StoreChannel on a private copy and asks the three questions.
+// analyseDir: what is on disk in the (re-opened) copy right now.
+func analyseDir(dir, runId string) dirInfo {
+	files := []imgFile{}
+	ents, _ := os.ReadDir(filepath.Join(dir, runId))
+	for _, e := range ents {
+		if b, err := os.ReadFile(filepath.Join(dir, runId, e.Name())); err == nil {
+			files = append(files, imgFile{Name: e.Name(), Data: b})
+		}
+	}
+	return analyse(files)
+}
+
 func (c *checker) openImage(runId string, files []imgFile, logSize int64) (*syncer.StoreChannel, report, string, error) {
 	dir := c.materialise(runId, files)
+	ch, rep, err := c.openDir(dir, runId, logSize)
+	return ch, rep, dir, err
+}
+
+// openDir opens a fresh StoreChannel on an existing directory (what the next process start sees).
+func (c *checker) openDir(dir, runId string, logSize int64) (*syncer.StoreChannel, report, error) {
 	ch := syncer.NewStoreChannel(syncer.StorerConf{InputId: "c08", Dir: dir, MaxSize: 0, LogSize: logSize}).(*syncer.StoreChannel)
 	sp, err := ch.StartPoint([]string{runId})
 	rep := report{RunId: ch.RunId(), SpRunId: sp.RunId, SpOffset: sp.Offset}
 	rep.L, rep.R = ch.GetOffsetRange(runId)
 	rep.RdbL, rep.RdbS = ch.GetRdb(runId)
-	return ch, rep, dir, err
+	return ch, rep, err
 }
 
 type readResult struct {
@@ -567,34 +601,67 @@ func segState(di dirInfo, off int64) string {
 // (2b) nothing older than a gap, (3) snapshot offered only if complete, (4) served bytes, (5) no
 // stale segment served.
 func (c *checker) checkOpen(img *image, runId string, di dirInfo, crc bool, rng *rand.Rand) {
-	key := fmt.Sprintf("%s/img%d", img.Case, img.Idx)
-	ch, rep, dir, err := c.openImage(runId, img.Dirs[runId], img.Params.LogSize)
+	dir := c.materialise(runId, img.Dirs[runId])
 	defer os.RemoveAll(dir)
-	defer ch.Close()
-	c.r.Eval(1)
-	c.r.Count("opens", 1)
-	if err != nil {
-		c.r.Count("open_errors", 1) // the cache refused the directory: fail-safe
-		return
+	segGap, _ := di.hasGap()
+	if segGap {
+		c.r.Count("reopens_that_must_discard_log_segments", 1)
 	}
+	// first reopen, and - for images with a gap between log segments and a sample of the others -
+	// a second reopen of the SAME directory: what the next process start finds after the first
+	// one has cleaned up
+	passes := 1
+	if segGap || rng.Intn(8) == 0 {
+		passes = 2
+	}
+	for pass := 1; pass <= passes; pass++ {
+		ch, rep, err := c.openDir(dir, runId, img.Params.LogSize)
+		c.r.Eval(1)
+		c.r.Count("opens", 1)
+		if pass == 2 {
+			c.r.Count("second_reopens_of_the_same_directory", 1)
+		}
+		if err != nil {
+			c.r.Count("open_errors", 1) // the cache refused the directory: fail-safe
+			ch.Close()
+			return
+		}
+		tag := ""
+		if pass == 2 {
+			tag = "|second-reopen"
+		}
+		usable := c.judge(img, runId, di, analyseDir(dir, runId), ch, rep, crc, rng, tag)
+		ch.Close()
+		if !usable {
+			return
+		}
+	}
+}
+
+// judge applies the oracle to one fresh StoreChannel.  di is the kill-point image, disk what the
+// directory holds after this reopen's own clean-up.  Returns false when the instance became
+// unusable (opener deadlock / stall).
+func (c *checker) judge(img *image, runId string, di, disk dirInfo, ch *syncer.StoreChannel, rep report, crc bool, rng *rand.Rand, tag string) bool {
+	key := fmt.Sprintf("%s/img%d", img.Case, img.Idx)
 	p := img.Params
 	w := func(extra map[string]any) map[string]any {
-		extra["mode"] = crcName(crc)
+		extra["mode"] = crcName(crc) + tag
 		extra["reported"] = rep
+		extra["files_on_disk_after_this_reopen"] = diskListing(disk)
 		return c.witness(img, runId, di, extra)
 	}
 	if rep.L == -1 && rep.R == -1 {
 		c.r.Count("opens_reporting_nothing", 1)
 		if rep.RdbL != -1 {
-			c.r.Violation("rdb-offered|without-range", key, "GetRdb offers a snapshot while GetOffsetRange reports nothing", w(map[string]any{}))
+			c.r.Violation("rdb-offered|without-range"+tag, key, "GetRdb offers a snapshot while GetOffsetRange reports nothing", w(map[string]any{}))
 		}
-		return
+		return true
 	}
 	c.r.Count("opens_reporting_a_range", 1)
 	g := prf.GenOf(rep.L)
 	if g < 0 || g >= len(p.Gens) || rep.L > rep.R || prf.GenOf(rep.R) != g || rep.L < p.Gens[g].L {
-		c.r.Violation("range|malformed", key, "reported range is not a range of offsets the source ever sent", w(map[string]any{}))
-		return
+		c.r.Violation("range|malformed"+tag, key, "reported range is not a range of offsets the source ever sent", w(map[string]any{}))
+		return true
 	}
 	gen := p.Gens[g]
 	// (1) nothing beyond what the child had handed to the writer when it was frozen
@@ -603,7 +670,7 @@ func (c *checker) checkOpen(img *image, runId string, di dirInfo, crc bool, rng 
 		bound = gen.L
 	}
 	if rep.R > bound {
-		c.r.Violation("range|beyond-handed-out", key,
+		c.r.Violation("range|beyond-handed-out"+tag, key,
 			fmt.Sprintf("reported right edge %d exceeds the last offset %d the source had handed to the writer before the freeze", rep.R, bound), w(map[string]any{}))
 	}
 	// (2) one contiguous range: every reported offset is held by a segment file of the image
@@ -620,7 +687,12 @@ func (c *checker) checkOpen(img *image, runId string, di dirInfo, crc bool, rng 
 			sig = "hole|snapshot-then-later-segment"
 			what = fmt.Sprintf("snapshot at %d is offered and range [%d,%d] reported, but the first segment present starts after %d: the log right after the snapshot is missing (data older than a gap is served)", rep.RdbL, rep.L, rep.R, holeAt)
 		}
-		c.r.Violation(sig, key, what, w(map[string]any{"hole_at": holeAt}))
+		c.r.Violation(sig+tag, key, what, w(map[string]any{"hole_at": holeAt}))
+	} else if h := disk.firstHole(rep.L, rep.R); h >= 0 {
+		// (2') ... and still held after the reopen's own clean-up
+		c.r.Violation("range|not-on-disk-after-reopen"+tag, key,
+			fmt.Sprintf("the reported range [%d,%d] was held by the files of the kill-point image, but the reopen itself removed the file holding offset %d: the cache reports (IsValidOffset, start point) bytes it no longer holds", rep.L, rep.R, h),
+			w(map[string]any{"hole_at": h}))
 	}
 	// (2b) segments older than a gap are discarded: the report starts no earlier than the
 	// newest contiguous run of segments
@@ -630,7 +702,7 @@ func (c *checker) checkOpen(img *image, runId string, di dirInfo, crc bool, rng 
 			runL = ds[i-1].Left
 		}
 		if runL != ds[0].Left && rep.L < runL {
-			c.r.Violation("stale|older-than-gap-reported", key,
+			c.r.Violation("stale|older-than-gap-reported"+tag, key,
 				fmt.Sprintf("the image's newest contiguous run of segments starts at %d (older segments are separated from it by a gap) but the reported range [%d,%d] starts before it", runL, rep.L, rep.R),
 				w(map[string]any{"newest_run_starts": runL}))
 		}
@@ -663,7 +735,7 @@ func (c *checker) checkOpen(img *image, runId string, di dirInfo, crc bool, rng 
 					tmp = fmt.Sprintf("tmp(%d/%d)", rf.Raw, rf.Size)
 				}
 			}
-			c.r.Violation("rdb-offered|incomplete", key, "GetRdb offers a snapshot that was not completely received: "+why, w(map[string]any{"tmp": tmp}))
+			c.r.Violation("rdb-offered|incomplete"+tag, key, "GetRdb offers a snapshot that was not completely received: "+why, w(map[string]any{"tmp": tmp}))
 		}
 	}
 
@@ -700,9 +772,9 @@ func (c *checker) checkOpen(img *image, runId string, di dirInfo, crc bool, rng 
 			c.r.Count("crc_on_log_probes_skipped_after_deadlock", 1)
 			continue
 		}
-		res := c.readStream(img, di, ch, runId, pb.off, rep.R, crc)
+		res := c.readStream(img, disk, ch, runId, pb.off, rep.R, crc)
 		if res.OpenHung {
-			return // the opener holds the storer's lock for ever: this instance is unusable
+			return false // the opener holds the storer's lock for ever: this instance is unusable
 		}
 		c.r.Seen("reader_kinds", pb.kind+"|"+crcName(crc))
 		if res.Refused {
@@ -717,7 +789,7 @@ func (c *checker) checkOpen(img *image, runId string, di dirInfo, crc bool, rng 
 			if res.IsAof {
 				where = "|" + segState(di, res.Left+res.BadAt)
 			}
-			c.r.Violation("wrong-byte|"+ctx+where+"|"+crcName(crc), key,
+			c.r.Violation("wrong-byte|"+ctx+where+"|"+crcName(crc)+tag, key,
 				fmt.Sprintf("reader opened at %d served a byte that is not what the source sent at stream position %d", pb.off, res.BadAt),
 				w(map[string]any{"reader_at": pb.off, "probe": pb.kind, "read": res}))
 			continue
@@ -734,7 +806,7 @@ func (c *checker) checkOpen(img *image, runId string, di dirInfo, crc bool, rng 
 			} else {
 				c.r.Inconclusive("%s %s: reader at %d stalled after %d of %d bytes the image holds (watchdog %v)", key, crcName(crc), pb.off, res.Got, res.Want, readWatchdog)
 			}
-			return
+			return false
 		}
 		if res.Got < res.Want && !crc {
 			// without checksum verification nothing in a hole-free image is refusable; not a
@@ -749,19 +821,20 @@ func (c *checker) checkOpen(img *image, runId string, di dirInfo, crc bool, rng 
 			if crc && c.crcDeadlock.Load() {
 				break
 			}
-			res := c.readStream(img, di, ch, runId, s.Left, s.Right(), crc)
+			res := c.readStream(img, disk, ch, runId, s.Left, s.Right(), crc)
 			if res.OpenHung {
-				return
+				return false
 			}
 			c.r.Count("stale_probes", 1)
 			if !res.Refused && res.IsAof && res.Got > 0 {
-				c.r.Violation("stale-served|segment-outside-reported-range|"+crcName(crc), key,
+				c.r.Violation("stale-served|segment-outside-reported-range|"+crcName(crc)+tag, key,
 					fmt.Sprintf("segment [%d,%d) lies outside the reported range [%d,%d] (discarded as older than a gap) yet a reader at %d was served %d bytes", s.Left, s.Right(), rep.L, rep.R, s.Left, res.Got),
 					w(map[string]any{"read": res}))
 			}
 			break
 		}
 	}
+	return true
 }
 
 // ---------------------------------------------------------------------------------------------
@@ -1113,12 +1186,51 @@ func (c *checker) checkImage(img *image, nAlter int) {
 		if nAlter > 0 {
 			c.alter(img, id, di, rng, nAlter)
 		}
+		if img.Derived == "" && rng.Intn(c.r.N(3, 4)) == 0 {
+			c.deriveGap(img, id, di, rng)
+		}
 	}
 	sig += faultTag
 	c.r.Distinct(sig)
 	c.sigMu.Lock()
 	c.sigHist[sig]++
 	c.sigMu.Unlock()
+}
+
+// deriveGap: third class of images.  From a frozen image with at least three log segments one or
+// several MIDDLE segment files are removed - what a removal pass that does not go oldest-first
+// (os.RemoveAll in DelRunId, a collector pass whose unlink was refused) leaves when the process
+// dies inside it - keeping at least one segment before and after the hole.  The derived image goes
+// through the same oracle, including the second reopen of the same directory.
+func (c *checker) deriveGap(img *image, runId string, di dirInfo, rng *rand.Rand) {
+	ds := di.dataSegs()
+	if len(ds) < 3 {
+		return
+	}
+	i := 1 + rng.Intn(len(ds)-2)
+	k := 1
+	if max := len(ds) - 1 - i; max > 1 && rng.Intn(2) == 0 {
+		k = 1 + rng.Intn(max)
+	}
+	drop := map[string]bool{}
+	names := []string{}
+	for _, s := range ds[i : i+k] {
+		n := fmt.Sprintf("%d.aof", s.Left)
+		drop[n] = true
+		names = append(names, n)
+	}
+	d := &image{Case: img.Case, Idx: 1000 + img.Idx, Aim: img.Aim, Params: img.Params, Shm: img.Shm, Resumed: img.Resumed,
+		Derived: fmt.Sprintf("torn removal pass over frozen image %d: %v unlinked, %d segment(s) before and %d after the hole kept", img.Idx, names, i, len(ds)-i-k),
+		Dirs:    map[string][]imgFile{}}
+	for _, f := range img.Dirs[runId] {
+		if !drop[f.Name] {
+			d.Dirs[runId] = append(d.Dirs[runId], f)
+		}
+	}
+	c.r.Count("derived_gap_images", 1)
+	ddi := analyse(d.Dirs[runId])
+	c.checkOpen(d, runId, ddi, rng.Intn(2) == 0, rng)
+	c.r.Distinct(fmt.Sprintf("derived-gap|before=%s|hole=%s|after=%s|rdb=%v", bucket(i), bucket(k), bucket(len(ds)-i-k), len(di.rdbs) > 0))
 }
 
 func min64(a, b int64) int64 {
@@ -1600,6 +1712,7 @@ func main() {
 	r.Assume("the source can continue inside the generation the cache is in and answers FULLRESYNC otherwise; a restarted writer follows RedisInput: StartPoint, [DelRunId], SetRunId, NewRdbWriter/NewAofWritter")
 	r.Assume("hostile chains (every third case): a refused write is produced with RLIMIT_FSIZE in the child (SIGXFSZ ignored, write(2) stores what fits and fails with EFBIG; stands for ENOSPC/EDQUOT/EIO); after it the child follows RedisInput.Run: run error, back-off, start over")
 	r.Assume("in-process sweeps run in the writer child while its writer is parked in the source reader (idle, every handed chunk stored) and no collector pass overlaps: reported valid => NewReader succeeds and delivers PRF bytes up to the reported right edge, nothing beyond; a stall is decided on 400 polls of the child's own run time without a byte, its 30 s watchdog is inconclusive")
+	r.Assume("derived gap images: removing MIDDLE log segment files from a frozen image yields a directory a kill inside a removal pass can leave (os.RemoveAll unlinks in readdir order, hashed on ext4; a refused unlink in a collector pass); counted apart from the frozen images")
 	r.Assume("alterations: one per opened copy, only files with a recorded checksum (finalised segments, the renamed snapshot); a truncated snapshot keeps more than its 8 trailer bytes")
 
 	wantImages := r.N(150, 5000)
